@@ -39,14 +39,14 @@ C05 — kernel-checked witnesses.
    instead of the cursor of its recursive calls loses relocations.  One witness per arm (array, struct, union); the seeded
    change C05b was the union arm.
 
-1f. Known finding `C05-union-second-initializer`, PREPARED repair (not applied to /repo; union-second-initializer.patch, 15 lines):
-   `union_initializer` loops over the rest of its list (`union_rest`) - a designated initializer selects the member, the last one
-   wins, a member other than the one initialised so far starts from zero, other initializers are excess elements.
-   Model/InitUnionFix.lean is Model/Init.lean with that `union_initializer`.  Kernel-checked: on every list `{ t₁ … t₅` over `} , 1 .a .b` and `{ t₁ … t₄` over
-   `} , 1 .s .q .a` for `union { int a; struct { int p, q; } s; long b; }` the repaired parser accepts whatever the
-   specification accepts and builds the specification's tree (also where the specification's run switches the union's member,
-   which it flags `over`), and it returns what the present parser returns wherever the present parser accepts: the region of the
-   finding (specification accepts, parser rejects) is empty on the scope.
+1f. Repaired defect (`fix:` e1837fd in /repo, former known finding C05-union-second-initializer): `union_initializer` accepted exactly
+   one initializer in a brace-enclosed list - `union V { int a; long b; } v = { 1, .b = 2 };` (C11 6.7.9p19: the last one wins)
+   was rejected with "expected '}'".  Now `union_rest` loops over the rest of the list: a designated initializer selects the
+   member, the last one wins, a member other than the one initialised so far starts from zero, other initializers are excess
+   elements; the model is `unionRest`.  Kernel-checked: the witnesses, what the pre-fix tail did, and on every list `{ t₁ … t₅`
+   over `} , 1 .a .b` and `{ t₁ … t₄` over `} , 1 .s .q .a` for `union { int a; struct { int p, q; } s; long b; }` the parser
+   accepts whatever the specification accepts and builds the specification's tree (also where the specification's run switches
+   the union's member, which it flags `over`).
 
 2. Repaired defect (`fix:` in /repo): `_Bool` bit-field, static storage.  `write_gvar_data` masked the unconverted value while
    `create_lvar_init` assigns (and so converts):
@@ -61,7 +61,6 @@ import ChibiVerif.Model.Init
 import ChibiVerif.Spec.InitSpec
 import ChibiVerif.Lemmas.InitLeafLemmas
 import ChibiVerif.Model.InitCursor
-import ChibiVerif.Model.InitUnionFix
 
 namespace ChibiVerif.Findings.C05
 open ChibiVerif.Init
@@ -209,71 +208,57 @@ theorem C05_cursor_arms :
     relocLabels (gvarInitC Arms.code iCurU tCurU) = some ["x", "z"] ∧
     relocLabels (gvarInitC ⟨true, true, false⟩ iCurU tCurU) = some ["z"] := by decide   -- union arm (seeded C05b)
 
-/-! ### prepared repair of C05-union-second-initializer (Model/InitUnionFix.lean) -/
+/-! ### repaired: a union's list with more than one initializer (`union_rest`, /repo e1837fd) -/
 
 /-- `union { int a; struct { int p, q; } s; long b; }` -/
 def tUni : Ty := .union [(⟨some "a", 0, none⟩, tInt),
   (⟨some "s", 0, none⟩, .struct [(⟨some "p", 0, none⟩, tInt), (⟨some "q", 4, none⟩, tInt)] 8 false),
   (⟨some "b", 0, none⟩, .scalar 8 .int)] 8 false
-def alphaUni : List ITok := [.rbrace, .comma, n 1, .dot "a", .dot "s", .dot "q", .dot "b", .eq]
 
 def allListsF (alphabet : List ITok) : Nat → List (List ITok)
   | 0 => [[]]
   | k+1 => (allListsF alphabet k).flatMap (fun l => alphabet.map (fun t => t :: l))
 
-/-- the repaired parser accepts what the specification accepts, with the specification's tree and rest -/
-def repairedAgrees (ty : Ty) (toks : List ITok) : Bool :=
-  match UFix.parseInit ty toks, InitSpec.initFull ty toks with
+/-- the parser accepts what the specification accepts, with the specification's tree and rest -/
+def unionAgrees (ty : Ty) (toks : List ITok) : Bool :=
+  match parseInit ty toks, InitSpec.initFull ty toks with
   | .ok (p, pr), .ok r => Init.beq p r.obj && pr == r.rest
   | .error _, .ok _ => false
   | _, .error _ => true
 
-/-- … and what the present parser accepts it still accepts, with the same result -/
-def repairedExtends (ty : Ty) (toks : List ITok) : Bool :=
-  match parseInit ty toks, UFix.parseInit ty toks with
-  | .ok (p, pr), .ok (q, qr) => Init.beq p q && pr == qr
-  | .ok _, .error _ => false
-  | .error _, _ => true
-
-/-- the region of the finding on the scope: lists the specification accepts and the present parser rejects -/
-def unionSecond (ty : Ty) (toks : List ITok) : Bool :=
-  (parseInit ty toks).toOption.isNone && (InitSpec.initFull ty toks).toOption.isSome
-
-/-- the witnesses of the finding under the repaired parser: `{1, .b = 2}` and `{.a = 1, .b = 2}` give b == 2,
-    `{.s.p = 1, .a = 1, .s.q = 2}` gives s == {0, 2} (the member starts from zero again), as the specification (and gcc) say;
-    the present parser rejects all three -/
-theorem C05_union_fix_witnesses :
-    objectOf (UFix.parseInit tUni [.lbrace, n 1, .comma, .dot "b", .eq, n 2, .rbrace]) tUni = some ([2,0,0,0, 0,0,0,0].map Cell.byte) ∧
+/-- `{1, .b = 2}` and `{.a = 1, .b = 2}` give b == 2, `{.s.p = 1, .a = 1, .s.q = 2}` gives s == {0, 2} (the member starts from
+    zero again), as the specification (and gcc) say; the pre-fix tail `consume(","); skip("}")` stopped at the designator -/
+theorem C05_repaired_union_second :
+    objectOf (parseInit tUni [.lbrace, n 1, .comma, .dot "b", .eq, n 2, .rbrace]) tUni = some ([2,0,0,0, 0,0,0,0].map Cell.byte) ∧
     objectOf (InitSpec.init tUni [.lbrace, n 1, .comma, .dot "b", .eq, n 2, .rbrace]) tUni = some ([2,0,0,0, 0,0,0,0].map Cell.byte) ∧
-    objectOf (UFix.parseInit tUni [.lbrace, .dot "a", .eq, n 1, .comma, .dot "b", .eq, n 2, .rbrace]) tUni
+    objectOf (parseInit tUni [.lbrace, .dot "a", .eq, n 1, .comma, .dot "b", .eq, n 2, .rbrace]) tUni
       = some ([2,0,0,0, 0,0,0,0].map Cell.byte) ∧
-    objectOf (UFix.parseInit tUni [.lbrace, .dot "s", .dot "p", .eq, n 1, .comma, .dot "a", .eq, n 1, .comma, .dot "s", .dot "q", .eq, n 2, .rbrace]) tUni
+    objectOf (parseInit tUni [.lbrace, .dot "s", .dot "p", .eq, n 1, .comma, .dot "a", .eq, n 1, .comma, .dot "s", .dot "q", .eq, n 2, .rbrace]) tUni
       = some ([0,0,0,0, 2,0,0,0].map Cell.byte) ∧
     objectOf (InitSpec.init tUni [.lbrace, .dot "s", .dot "p", .eq, n 1, .comma, .dot "a", .eq, n 1, .comma, .dot "s", .dot "q", .eq, n 2, .rbrace]) tUni
       = some ([0,0,0,0, 2,0,0,0].map Cell.byte) ∧
-    unionSecond tUni [.lbrace, n 1, .comma, .dot "b", .eq, n 2, .rbrace] = true ∧
-    (UFix.parseInit tUni [.lbrace, n 1, .comma, .dot "b", .eq, n 2, .rbrace]).toOption.isSome = true := by decide +kernel
+    (skipTok .rbrace "}" [.dot "b", .eq, n 2, .rbrace]).toOption.isNone = true := by         -- the pre-fix tail after `1 ,`: "expected '}'"
+  decide +kernel
 
 def alphaUniA : List ITok := [.rbrace, .comma, n 1, .dot "a", .dot "b"]
 def alphaUniS : List ITok := [.rbrace, .comma, n 1, .dot "s", .dot "q", .dot "a"]
 
-/-- **the region disappears** on exhaustive scopes: every list `{ t₁ … t₅` over `} , 1 .a .b` (3125 lists, e.g. `{ 1 , .b 1 }`,
-    `{ .a 1 , 1 }`) and every list `{ t₁ … t₄` over `} , 1 .s .q .a` (1296 lists, designators into the struct member) that does not
-    start with the GNU empty list `{}` (which chibicc rejects for a union with or without the repair).  The repaired parser accepts
-    what the specification accepts, builds its tree and stops where it stops; and it answers as the present parser wherever that
-    one accepts.  (Evaluated by the compiler also for `{ t₁ … t₆` over `} , 1 .a .s .q .b =`, 262144 lists, 134 of them in the
-    region of the finding: same result.) -/
-theorem C05_union_fix_scope :
-    ((allListsF alphaUniA 5).map (fun l => ITok.lbrace :: l)).all
-      (fun l => isEnd l.tail || (repairedAgrees tUni l && repairedExtends tUni l)) = true ∧
-    ((allListsF alphaUniS 4).map (fun l => ITok.lbrace :: l)).all
-      (fun l => isEnd l.tail || (repairedAgrees tUni l && repairedExtends tUni l)) = true := by
+/-- exhaustive scopes (they include the lists on which the specification's run switches the union's member, which it notes as `over`
+    and `C05_parse_spec_partial` therefore does not speak about): every list `{ t₁ … t₅` over `} , 1 .a .b` (3125
+    lists, e.g. `{ 1 , .b 1 }`, `{ .a 1 , 1 }`) and every list `{ t₁ … t₄` over `} , 1 .s .q .a` (1296 lists, designators into the
+    struct member) that does not start with the GNU empty list `{}` (which chibicc rejects for a union): the parser accepts what
+    the specification accepts, builds its tree and stops where it stops.  (Evaluated by the compiler also for `{ t₁ … t₆` over
+    `} , 1 .a .s .q .b =`, 262144 lists: same result.) -/
+theorem C05_union_scope :
+    ((allListsF alphaUniA 5).map (fun l => ITok.lbrace :: l)).all (fun l => isEnd l.tail || unionAgrees tUni l) = true ∧
+    ((allListsF alphaUniS 4).map (fun l => ITok.lbrace :: l)).all (fun l => isEnd l.tail || unionAgrees tUni l) = true := by
   decide +kernel
 
-/-- non-vacuity: lists of the first scope lie in the region of the finding for the present parser -/
-theorem C05_union_fix_scope_region :
-    ((allListsF alphaUniA 5).map (fun l => ITok.lbrace :: l)).any (fun l => !isEnd l.tail && unionSecond tUni l) = true ∧
-    unionSecond tUni [.lbrace, n 1, .comma, .dot "b", n 1, .rbrace] = true := by
+/-- non-vacuity: lists of the first scope switch the member (`{ 1 , .b 1 }`: the specification's run is in `over`, both give b == 1) -/
+theorem C05_union_scope_switch :
+    InitSpec.BraceOverride tUni [.lbrace, n 1, .comma, .dot "b", n 1, .rbrace] = true ∧
+    unionAgrees tUni [.lbrace, n 1, .comma, .dot "b", n 1, .rbrace] = true ∧
+    (parseInit tUni [.lbrace, n 1, .comma, .dot "b", n 1, .rbrace]).toOption.isSome = true := by
   decide +kernel
 
 /-! ### repaired: the empty union -/
